@@ -46,13 +46,13 @@ class Noise:
     no deeper than the enclosing header that is FOLLOWED by a statement of the same block is counted as
     `dedented-comment-inside-block`."""
 
-    def __init__(self, rng, p_line=0.3, p_trail=0.18, p_blank=0.12, wide=False):
+    def __init__(self, rng, p_line=0.3, p_trail=0.18, p_blank=0.12, wide=False, p_space=0.25):
         self.rng, self.p_line, self.p_trail, self.p_blank, self.wide = rng, p_line, p_trail, p_blank, wide
         self.stats = {}
         self.tabs = wide and rng.random() < 0.12           # the whole script indents with tabs only
         self.crlf = wide and rng.random() < 0.15
         self.no_final_newline = wide and rng.random() < 0.2
-        self.p_space = 0.25 if wide else 0.0
+        self.p_space = p_space if wide else 0.0
         if self.tabs:
             self._n("script:tab-indented")
         if self.crlf:
